@@ -93,6 +93,7 @@ func VerifC10Terminate() {
 		// server is slow to take, and the reader is held pushing the rest of a burst of queued frames
 		gate = make(chan struct{})
 		server.gate = gate
+		vf.FixedSchedule(true) // filling the channel: one schedule; the event phase explores them all
 		client.send(frameBytes(func(fr *http2.Framer) {
 			fr.WriteHeaders(http2.HeadersFrameParam{StreamID: 1, BlockFragment: headerBlock(), EndHeaders: true})
 			for i := 0; i < 20; i++ {
@@ -101,6 +102,9 @@ func VerifC10Terminate() {
 		}))
 	}
 	vf.Quiesce()
+	if state == 3 && vf.Param("all-schedules") == 1 {
+		vf.FixedSchedule(false)
+	}
 
 	// the terminating event
 	event := vf.Choice("event", 7)
